@@ -81,8 +81,54 @@ def run_tagged_strings(ctx, stats, fails):
     finally:
         b.cleanup()
 
+XUNK_MODULE = ("XU DEFINITIONS AUTOMATIC TAGS ::= BEGIN St ::= SET { a INTEGER, b INTEGER OPTIONAL, ..., c INTEGER OPTIONAL } "
+               "Sq ::= SEQUENCE { a INTEGER, ..., c INTEGER OPTIONAL, d BOOLEAN OPTIONAL } "
+               "Ou ::= SEQUENCE { s St, q Sq, z BOOLEAN } END")
+# XER texts of a newer version's sender: unknown extension additions (empty-element, start/end pair, nested, with text) that the
+# receiver must skip; (type, text, expected value)
+XUNK_CASES = [
+    ("St", "<St><a>1</a><flag/><b>2</b></St>", "(set (a (int 1)) (b (int 2)))"),
+    ("St", "<St><a>1</a><b>2</b><flag/><c>3</c></St>", "(set (a (int 1)) (b (int 2)) (c (int 3)))"),
+    ("St", "<St><flag/><a>1</a></St>", "(set (a (int 1)))"),
+    ("St", "<St><a>1</a><flag></flag><b>2</b></St>", "(set (a (int 1)) (b (int 2)))"),
+    ("St", "<St><a>1</a><u><v/>text<w>1</w></u><b>2</b><c>3</c></St>", "(set (a (int 1)) (b (int 2)) (c (int 3)))"),
+    ("St", "<St><a>1</a><flag/><flag2/><b>2</b><last/></St>", "(set (a (int 1)) (b (int 2)))"),
+    ("Sq", "<Sq><a>1</a><c>3</c><flag/></Sq>", "(seq (a (int 1)) (c (int 3)))"),
+    ("Sq", "<Sq><a>1</a><c>3</c><d><true/></d><u><v/>x</u><flag/></Sq>", "(seq (a (int 1)) (c (int 3)) (d (bool t)))"),
+    ("Sq", "<Sq><a>1</a><flag/></Sq>", "(seq (a (int 1)))"),
+    ("Ou", "<Ou><s><a>1</a><flag/><b>2</b></s><q><a>4</a><new/></q><z><true/></z></Ou>",
+     "(seq (s (set (a (int 1)) (b (int 2)))) (q (seq (a (int 4)))) (z (bool t)))"),
+]
+
+def directed_xer_unknown_extensions(ctx):
+    names = ["St", "Sq", "Ou"]
+    b = bundle.Bundle("XU", XUNK_MODULE, names)
+    try: exe = b.build()
+    except Exception as e:
+        ctx.module_not_built({"name": "XU-directed"}, e); b.cleanup(); return
+    bad = []
+    try:
+        from .. import sexp as _sx
+        env = {}
+        lines = [f"@{tn} dec xer {text.encode().hex()}" for tn, text, _ in XUNK_CASES]
+        outs, _ = ctx.run_c_bisect(exe, lines)
+        for (tn, text, want), l, o in zip(XUNK_CASES, lines, outs):
+            ctx.cov["evaluations"] += 1
+            o = str(o); parts = o.split(" ", 2)
+            ok = len(parts) == 3 and parts[0] == "ok" and int(parts[1]) == len(text.encode()) and \
+                 re.sub(r"\s+", " ", parts[2].strip()) == want
+            if ok: ctx.count_nontrivial(("xer-unknown-ext", text))
+            else: bad.append((tn, text, want, o))
+    finally:
+        b.cleanup()
+    ctx.cov["predicate"]["xer_unknown_extensions"] = {"cases": len(XUNK_CASES), "failures": len(bad)}
+    for tn, text, want, o in bad[:3]:
+        ctx.violation(f"C03: valid xer text with unknown extension additions is not decoded to the value it denotes: @{tn} {text} -> {o[:160]} (expected ok {len(text)} {want})",
+                      {"module": XUNK_MODULE, "type": tn, "op": f"@{tn} dec xer {text.encode().hex()}", "c_output": o[:2000], "expected": want})
+
 def run(ctx):
     ctx.lean()
+    directed_xer_unknown_extensions(ctx)
     gfind.replay_witnesses(ctx)
     gfind.replay_fixed_witnesses(ctx)      # former witnesses of repaired findings must not reproduce
     # OER / UPER: valid encodings that are not the library's own (Lean variant generators L2.OerVar / L2.UperVar)
